@@ -53,6 +53,8 @@ def generate(streams: core.Streams, tier: str) -> dict:
                          table=[t for t in gen.MODIFIER_TABLE if t[1] in ("any", "str", "strlist", "list", "num")])
         d["id"] = gen.UUIDS[i]
         d["name"] = f"rule_{i}"
+        if gen.chance(w, 0.05):
+            d["name"] = "deadbeefdeadbeefdeadbeefdeadbee" + str(i)  # a name that reads like a UUID
         d.pop("fields", None)
         docs.append(d)
     n_corr = w.choice([0, 1, 1, 2, 2, 3])
